@@ -17,7 +17,8 @@ RULE = ("(labels) 1-4 surveys x 1-12 epochs, layouts {disjoint in order, disjoin
         "deliberately permuted labels differs (guard against a vacuous comparison). (plots) plot_rv_curves / "
         "plot_phase_fold on tagged multi-survey data (list / tuple / dict): every plotted velocity must be an observation "
         "with exactly its own survey's offset removed. Non-trivial: >=2 surveys whose "
-        "time-sorted label sequence differs from the concatenation-order labels (interleaved / reversed / identical epochs).")
+        "time-sorted label sequence differs from the concatenation-order labels (interleaved / reversed / identical epochs)."
+        " Also: layouts 'touching' (first epoch of a survey == last epoch of its predecessor) and 'copy' (a source repeated in part), tag blocks permuted among surveys, label counts per survey; a label mismatch counts as recorded defect F5 only when the rows are exactly where a time sort of the concatenated sources puts them; plots drawn twice from the same objects, in a unit independent of the data unit, remove_trend on/off.")
 SHARDS = {"quick": 4, "thorough": 16}
 BUDGET = {"quick": 70, "thorough": 700}
 
